@@ -63,6 +63,17 @@ def _oracle(pio, platform, board):
 
 
 def check_pair(pio, platform, board):
+    first = _check_pair_once(pio, platform, board)
+    if first is not None:
+        return first
+    # the verdict is a function of the pair, not of what was validated before: ask again
+    again = _check_pair_once(pio, platform, board)
+    if again is not None:
+        again["bucket"] = "validate-verdict-changes-when-repeated:" + again["bucket"]
+    return again
+
+
+def _check_pair_once(pio, platform, board):
     try:
         pio.validate_platform_board(platform, board)
         got = True
